@@ -60,6 +60,19 @@ class Check(BaseCheck):
 
     def correspond(self, drv, stats):
         fails = []
+        # malformed stream: wrong-length functions are rejected with ValueError (also lengths that are multiples of the right one)
+        first = next(iter(self.cases(self.seed, 3)))
+        with core.quiet():
+            m0 = TriaMesh(*gen.arrays(first))
+        nv0, nt0 = len(first["v"]), len(first["t"])
+        for fname, shape in (("map_tfunc_to_vfunc", (nt0 + 1,)), ("map_tfunc_to_vfunc", (2 * nt0,)), ("map_tfunc_to_vfunc", (3 * nt0, 2)), ("map_tfunc_to_vfunc", (nt0 - 1, 2)),
+                             ("map_vfunc_to_tfunc", (nv0 + 1,)), ("map_vfunc_to_tfunc", (2 * nv0,)), ("map_vfunc_to_tfunc", (2 * nv0, 3)),
+                             ("smooth_vfunc", (nv0 + 1,)), ("smooth_vfunc", (2 * nv0,)), ("smooth_vfunc", (nv0 - 1, 2))):
+            r = core.call(getattr(m0, fname), np.ones(shape))
+            stats.case("malformed" + fname + str(shape), cls="malformed:" + fname)
+            if not (r[0] == "err" and r[1] == "ValueError"):
+                fails.append(core.Failure("correspondence", "wrong-length input vs model", "%s accepts a function of shape %s on a mesh with %d vertices and %d triangles "
+                                          "(model: ValueError)" % (fname, shape, nv0, nt0), first))
         for c in self.cases(self.seed, 30 if self.quick else 500):
             v, t = c["v"], c["t"]
             with core.quiet():
